@@ -57,6 +57,8 @@ impl Case {
       .map(|(i, s)| match s {
         SrcKind::Hot => format!("s{}=hot", i),
         SrcKind::Subject => format!("s{}=Subject", i),
+        SrcKind::BehaviorSubject => format!("s{}=BehaviorSubject", i),
+        SrcKind::ReplaySubject => format!("s{}=ReplaySubject", i),
         SrcKind::Lib(l) => format!("s{}={:?}", i, l),
         SrcKind::Endless(v) => format!("s{}=endless({})", i, v),
         SrcKind::Cold { scripts, polite } => format!(
@@ -90,6 +92,8 @@ pub fn rec_id(root: usize) -> u32 {
 
 struct RealSrc {
   subject: subjects::Subject<'static, V>,
+  behavior: subjects::BehaviorSubject<'static, V>,
+  replay: subjects::ReplaySubject<'static, V>,
   observers: Arc<Mutex<Vec<Observer<'static, V>>>>,
   err_addrs: Arc<Mutex<Vec<(i64, usize)>>>,
   /// polite cold sources: is_subscribed() readings taken before each would-be emission, per instance
@@ -108,6 +112,8 @@ impl RealSrc {
   fn new(toks: &Tokens) -> RealSrc {
     RealSrc {
       subject: subjects::Subject::new(),
+      behavior: subjects::BehaviorSubject::new(V::int(0)),
+      replay: subjects::ReplaySubject::new(),
       observers: Arc::new(Mutex::new(vec![])),
       err_addrs: Arc::new(Mutex::new(vec![])),
       emitted: Arc::new(Mutex::new(vec![])),
@@ -115,8 +121,11 @@ impl RealSrc {
     }
   }
   fn observable(&self, kind: &SrcKind) -> Observable<'static, V> {
-    if *kind == SrcKind::Subject {
-      return self.subject.observable();
+    match kind {
+      SrcKind::Subject => return self.subject.observable(),
+      SrcKind::BehaviorSubject => return self.behavior.observable(),
+      SrcKind::ReplaySubject => return self.replay.observable(),
+      _ => {}
     }
     if let SrcKind::Lib(l) = kind {
       return lib_observable(l, &self.err_addrs);
@@ -132,7 +141,7 @@ impl RealSrc {
         o.len() - 1
       };
       match &kind {
-        SrcKind::Hot | SrcKind::Subject | SrcKind::Lib(_) => {}
+        SrcKind::Hot | SrcKind::Subject | SrcKind::BehaviorSubject | SrcKind::ReplaySubject | SrcKind::Lib(_) => {}
         SrcKind::Endless(v) => {
           let mut n = 0;
           while s.is_subscribed() && n < ENDLESS_CAP {
@@ -162,11 +171,25 @@ impl RealSrc {
       }
     })
   }
-  fn push_subject(&self, ev: &Ev) {
-    match ev {
-      Ev::N(d) => self.subject.next(V { d: d.clone(), tok: Some(self.toks.take("item")) }),
-      Ev::E(k) => self.subject.error(mk_err(*k, &self.err_addrs)),
-      Ev::C => self.subject.complete(),
+  fn push_subject(&self, kind: &SrcKind, ev: &Ev) {
+    let item = |d: &D| V { d: d.clone(), tok: Some(self.toks.take("item")) };
+    match (kind, ev) {
+      (SrcKind::BehaviorSubject, Ev::N(d)) => self.behavior.next(item(d)),
+      (SrcKind::BehaviorSubject, Ev::E(k)) => self.behavior.error(mk_err(*k, &self.err_addrs)),
+      (SrcKind::BehaviorSubject, Ev::C) => self.behavior.complete(),
+      (SrcKind::ReplaySubject, Ev::N(d)) => self.replay.next(item(d)),
+      (SrcKind::ReplaySubject, Ev::E(k)) => self.replay.error(mk_err(*k, &self.err_addrs)),
+      (SrcKind::ReplaySubject, Ev::C) => self.replay.complete(),
+      (_, Ev::N(d)) => self.subject.next(item(d)),
+      (_, Ev::E(k)) => self.subject.error(mk_err(*k, &self.err_addrs)),
+      (_, Ev::C) => self.subject.complete(),
+    }
+  }
+  fn held(&self, kind: &SrcKind) -> usize {
+    match kind {
+      SrcKind::BehaviorSubject => self.behavior.verif_observer_count(),
+      SrcKind::ReplaySubject => self.replay.verif_observer_count(),
+      _ => self.subject.verif_observer_count(),
     }
   }
   fn push(&self, ev: &Ev) {
@@ -453,8 +476,8 @@ pub fn run_real(case: &Case, opts: &RunOpts) -> Trace {
       match act {
         Act::Sub(r) => subs[*r] = Some(rec.subscribe(&built, rec_id(*r))),
         Act::Emit(i, ev) => {
-          if case.srcs[*i] == SrcKind::Subject {
-            srcs[*i].push_subject(ev)
+          if matches!(case.srcs[*i], SrcKind::Subject | SrcKind::BehaviorSubject | SrcKind::ReplaySubject) {
+            srcs[*i].push_subject(&case.srcs[*i], ev)
           } else {
             srcs[*i].push(ev)
           }
@@ -479,7 +502,7 @@ pub fn run_real(case: &Case, opts: &RunOpts) -> Trace {
       }
       root_live.lock().unwrap().push(subs.iter().map(|s| s.as_ref().map(|s| s.is_subscribed())).collect());
       src_alive.lock().unwrap().push(srcs.iter().map(|s| s.alive()).collect());
-      held.lock().unwrap().push(srcs.iter().map(|s| s.subject.verif_observer_count()).collect());
+      held.lock().unwrap().push(srcs.iter().zip(case.srcs.iter()).map(|(s, k)| s.held(k)).collect());
     }
     drop(subs);
     *rec.built.lock().unwrap() = None;
